@@ -802,6 +802,37 @@ func init() {
 		}
 		p.Tail()
 	}})
+	Probes = append(Probes, Probe{"read-of-holes-on-a-full-disk", []string{"C02", "C12", "C09"}, 1800, func(p *P) {
+		// holes read as zeros, also when the disk has no block left to put under them (READ fills holes when it can)
+		const B = 4096
+		h := p.Create(p.Root, "h").RFh
+		p.Trunc(h, 3*B)
+		k := p.Create(p.Root, "k").RFh
+		p.Write(k, 0, 100, 2)
+		p.Trunc(k, 600*B) // holes behind an index block
+		fill := p.Create(p.Root, "fill").RFh
+		off := 0
+		for _, chunk := range []int{100 * B, B} {
+			for !p.S.Wedged {
+				c := p.Write(fill, off, chunk, 2)
+				if c.St != "OK" || c.RCount == 0 {
+					break
+				}
+				off += c.RCount
+			}
+		}
+		p.Read(h, 0, B)
+		p.Read(h, 100, 2*B)
+		p.Read(k, 0, 2*B)
+		p.Read(k, 10*B, B)
+		p.Read(k, 598*B, 2*B)
+		p.Getattr(h)
+		p.S.WaitIdle()
+		p.T.Emit(TakeSnap(p.S, "run", true))
+		p.Remove(p.Root, "fill")
+		p.Read(h, 0, 3*B)
+		p.Tail()
+	}})
 	Probes = append(Probes, Probe{"create-with-an-initial-size", []string{"C11", "C02", "C19"}, 0, func(p *P) {
 		// the size among CREATE's initial attributes may be ignored or applied, but never beyond what SETATTR accepts: a file
 		// whose size the block map cannot address crashes a later READ and keeps the thread that frees it busy for ever
